@@ -67,9 +67,10 @@ namespace RecInt
 {
     // a = b^c mod n
     template <size_t K>
-    inline void exp_mod(ruint<K>& a, const ruint<K>& b, const ruint<K>& c, const ruint<K>& n) {
+    inline void exp_mod(ruint<K>& a, const ruint<K>& b, const ruint<K>& cc, const ruint<K>& nn) {
         ruint<K+1> resmul;
         ruint<K> x(b);
+        const ruint<K> c(cc), n(nn); // exponent and modulus are read until the end: a may be one of them
         limb i, j;
 
         limb *tab[NBLIMB<K>::value];
@@ -92,9 +93,10 @@ namespace RecInt
 
     // a = b^c mod n
     template <size_t K, typename T>
-    inline __RECINT_IS_UNSIGNED(T, void) exp_mod(ruint<K>& a, const ruint<K>& b, const T& c, const ruint<K>& n) {
+    inline __RECINT_IS_UNSIGNED(T, void) exp_mod(ruint<K>& a, const ruint<K>& b, const T& c, const ruint<K>& nn) {
         ruint<K+1> resmul;
         ruint<K> x(b);
+        const ruint<K> n(nn); // the modulus is read until the end: a may be the modulus
         T j;
 
         a = 1; mod_n(a, n); // 1 mod n (n may be 1)
